@@ -358,6 +358,8 @@ func (p *ProtocolGraphQLTransportWSHandler) Handle(ctx context.Context, engine s
 			abstractlogger.Error(err),
 			abstractlogger.ByteString("payload", data),
 		)
+		// valid JSON that is not a message of the protocol (wrong types, not an object)
+		p.closeConnectionWithReason(NewCloseReason(4400, "Invalid message"))
 		return err
 	}
 	switch message.Type {
@@ -491,8 +493,14 @@ func (p *ProtocolGraphQLTransportWSHandler) handleSubscribe(ctx context.Context,
 		return nil
 	}
 
+	if message.Id == "" {
+		p.closeConnectionWithReason(NewCloseReason(4400, "Invalid message: missing id"))
+		return nil
+	}
+
 	subscribePayload, err := p.reader.DeserializeSubscribePayload(message)
 	if err != nil {
+		p.closeConnectionWithReason(NewCloseReason(4400, "Invalid subscribe payload"))
 		return err
 	}
 
